@@ -184,8 +184,11 @@ func bubble(c *harness.Ctx) {
 			}
 		}
 	}
+	var desc []string
 	for i := 0; i < c.Choose(3, "npre"); i++ {
-		apply(genAnnounce(c))
+		a := genAnnounce(c)
+		desc = append(desc, fmt.Sprintf("pre-announce %s kind=%d %v", a.node, a.kind, a.hosts))
+		apply(a)
 	}
 	conn, _, err := zk.Connect([]string{"127.0.0.1:2181"}, 10*time.Second, zk.WithDialer(z.Dial), zk.WithLogger(nolog{}))
 	if err != nil {
@@ -221,7 +224,6 @@ func bubble(c *harness.Ctx) {
 		firstWave = false
 	}
 	nstim := 3 + c.Choose(8, "nstimuli")
-	var desc []string
 	for i := 0; i < nstim; i++ {
 		switch c.C.Weighted("stimulus", 4, 5, 2, 1, 1, 1, 1, 2, 1) {
 		case 0:
@@ -361,12 +363,65 @@ func bubble(c *harness.Ctx) {
 	}
 	// convergence after faults stopped is measured, not asserted (C19 states a fold, not convergence)
 	want := map[string]bool{}
+	weights := map[string]float64{}
 	for _, data := range z.Children("/d2/uris/" + curCluster) {
 		var u struct{ Weights map[string]float64 }
 		if json.Unmarshal(data, &u) == nil {
-			for h := range u.Weights {
+			for h, wt := range u.Weights {
 				want[h] = true
+				if wt > weights[h] {
+					weights[h] = wt
+				}
 			}
+		}
+	}
+	// what host selection may return now: hosts of the highest-priority scheme that has any host (every host when no
+	// priorities are configured), and among them only positively weighted ones if there is one
+	eligibleNow := map[string]bool{}
+	pick := func(scheme string) bool {
+		any := false
+		for h := range want {
+			if u, err := url.Parse(h); err == nil && (scheme == "" || u.Scheme == scheme) {
+				eligibleNow[h] = true
+				any = true
+			}
+		}
+		return any
+	}
+	if len(curSchemes) == 0 {
+		pick("")
+	} else {
+		for _, sc := range curSchemes {
+			if pick(sc) {
+				break
+			}
+		}
+	}
+	positive := false
+	for h := range eligibleNow {
+		if weights[h] > 0 {
+			positive = true
+		}
+	}
+	if positive {
+		for h := range eligibleNow {
+			if weights[h] <= 0 {
+				delete(eligibleNow, h)
+			}
+		}
+	}
+	// when may the last resolution be judged against the tree? No connection fault, the service stayed on its
+	// cluster, only valid announcements and deletions (an ignored update leaves the tree and the fold apart), and no
+	// resolver of the run was told of a failed load (the library keeps a failed initial load)
+	assertable := connFaults == 0
+	for _, d := range desc {
+		if strings.HasPrefix(d, "service moves") || strings.Contains(d, "kind=2") || strings.Contains(d, "kind=3") || strings.HasPrefix(d, "delete+recreate") {
+			assertable = false
+		}
+	}
+	for _, r := range recs {
+		if !r.done || r.err != "" {
+			assertable = false
 		}
 	}
 	if len(recs) > 0 {
@@ -399,6 +454,17 @@ func bubble(c *harness.Ctx) {
 		} else {
 			err = fmt.Errorf("%s", last.err)
 		}
+		if assertable && last.done {
+			c.Probe("final-resolution-judged-against-the-tree")
+			switch {
+			case last.host == "" && len(eligibleNow) > 0:
+				c.Fail("C19", "fold-final-resolution", "fold-final-resolution:error", "fault-free run of valid announcements: %v after the last stimulus a resolution fails (%s) although ZooKeeper announces eligible hosts %v for schemes %v (%s)", now()-last.start, last.err, keysOf(eligibleNow), curSchemes, workload)
+				return
+			case last.host != "" && !eligibleNow[last.host]:
+				c.Fail("C19", "fold-final-resolution", "fold-final-resolution:stale", "fault-free run of valid announcements: the resolution after the quiet period returned %s, which is not among the hosts ZooKeeper announces and host selection may choose now %v (schemes %v) (%s)", last.host, keysOf(eligibleNow), curSchemes, workload)
+				return
+			}
+		}
 		switch {
 		case !last.done:
 		case err == nil && u != nil && want[u.String()]:
@@ -429,6 +495,15 @@ func bubble(c *harness.Ctx) {
 		_ = os.WriteFile(f, []byte(strings.Join(tr, "\n")+"\n--\n"+strings.Join(rs, "\n")+"\n"), 0o644)
 	}
 	conn.Close()
+}
+
+func keysOf(m map[string]bool) []string {
+	var ks []string
+	for k := range m {
+		ks = append(ks, k)
+	}
+	sort.Strings(ks)
+	return ks
 }
 
 func TestS3(t *testing.T) {
